@@ -184,16 +184,18 @@ Qed.
 Definition Pv {B} (rd : list (list nat)) : list (list nat) -> mem * B -> Prop :=
   fun rd' res => incl rd rd' /\ In (mnames (fst res)) rd'.
 
-Lemma reload_okv : forall a reuse old rd, In (mnames old) rd ->
-  okv rd (reload a reuse old) (Pv rd).
+Lemma reload_okv : forall a hh reuse old rd, In (mnames old) rd ->
+  okv rd (reload a hh reuse old) (Pv rd).
 Proof.
-  induction a as [|a IH]; intros reuse old rd Hold; cbn [reload].
+  induction a as [|a IH]; intros hh reuse old rd Hold; cbn [reload].
   - cbn [okv]. split; [apply incl_refl|exact Hold].
   - vop. intros rs. cbn [rd_step].
     change (match rs with SNames (Some l) => l | _ => [] end) with (lnames rs).
     eapply okv_bind; [apply open_all_okv|]. cbn beta. intros rd1 o [-> Ho].
     destruct o as [m|].
-    + eapply okv_bind; [apply remove_any_okv|]. cbn beta. intros rd2 _ ->.
+    + destruct (same_hash hh m).
+      2:{ cbn [okv]. split; [apply incl_tl, incl_refl|]. cbn [fst]. right. exact Hold. }
+      eapply okv_bind; [apply remove_any_okv|]. cbn beta. intros rd2 _ ->.
       cbn [okv]. split; [apply incl_tl, incl_refl|]. cbn [fst].
       rewrite (Ho m eq_refl). cbn. left. reflexivity.
     + vop. intros rs2. cbn [rd_step].
@@ -206,24 +208,25 @@ Proof.
 Qed.
 
 (* the first load returns the names of a list it has read, or nothing *)
-Lemma open_reload_okv : forall a rd,
-  okv rd (open_reload a) (fun rd' res => forall m, res = Some m -> In (mnames m) rd').
+Lemma open_reload_okv : forall a hh rd,
+  okv rd (open_reload a hh) (fun rd' res => forall m, res = Some m -> In (mnames m) rd').
 Proof.
-  induction a as [|a IH]; intros rd; cbn [open_reload].
+  induction a as [|a IH]; intros hh rd; cbn [open_reload].
   - cbn [okv]. intros m E. discriminate E.
   - vop. intros rs. cbn [rd_step].
     change (match rs with SNames (Some l) => l | _ => [] end) with (lnames rs).
     eapply okv_bind; [apply open_all_okv|]. cbn beta. intros rd1 o [-> Ho].
     destruct o as [m|].
-    + cbn [okv]. intros m' E. inversion E; subst m'. rewrite (Ho m eq_refl). cbn. left. reflexivity.
+    + destruct (same_hash hh m); cbn [okv]; intros m' E; [|discriminate E].
+      inversion E; subst m'. rewrite (Ho m eq_refl). cbn. left. reflexivity.
     + vop. intros rs2. cbn [rd_step].
       destruct (names_eqb _ _); [cbn [okv]; intros m E; discriminate E|apply IH].
 Qed.
 
-Lemma compact_range_okv : forall att first last expiry m rd, In (mnames m) rd ->
-  okv rd (compact_range att first last expiry m) (Pv rd).
+Lemma compact_range_okv : forall att hh first last expiry m rd, In (mnames m) rd ->
+  okv rd (compact_range att hh first last expiry m) (Pv rd).
 Proof.
-  intros att first last expiry m rd Hm. unfold compact_range.
+  intros att hh first last expiry m rd Hm. unfold compact_range.
   assert (Hdone : forall rd' (b : bool), incl rd rd' -> Pv rd rd' (m, b)).
   { intros rd' b H. split; [exact H|]. apply H. exact Hm. }
   destruct (Nat.leb last first && negb expiry); [cbn [okv]; apply Hdone, incl_refl|].
@@ -262,23 +265,23 @@ Proof.
     vop. intros r9. cbn [rd_step okv]. apply Hdone, I2.
 Qed.
 
-Lemma auto_compact_okv : forall att m rd, In (mnames m) rd ->
-  okv rd (auto_compact att m) (fun rd' m' => incl rd rd' /\ In (mnames m') rd').
+Lemma auto_compact_okv : forall att hh m rd, In (mnames m) rd ->
+  okv rd (auto_compact att hh m) (fun rd' m' => incl rd rd' /\ In (mnames m') rd').
 Proof.
-  intros att m rd Hm. unfold auto_compact.
+  intros att hh m rd Hm. unfold auto_compact.
   destruct (suggest _) as [[s e]|].
   - eapply okv_bind; [apply compact_range_okv; exact Hm|]. cbn beta. intros rd' r H. cbn [okv]. exact H.
   - cbn [okv]. split; [apply incl_refl|exact Hm].
 Qed.
 
-Lemma add_okv : forall att kind auto m rd, In (mnames m) rd ->
-  okv rd (add att kind auto m) (Pv rd).
+Lemma add_okv : forall att hh kind auto m rd, In (mnames m) rd ->
+  okv rd (add att hh kind auto m) (Pv rd).
 Proof.
-  intros att kind auto m rd Hm. unfold add.
+  intros att hh kind auto m rd Hm. unfold add.
   assert (Hdone : forall rd' (r : apires), incl rd rd' -> Pv rd rd' (m, r)).
   { intros rd' b H. split; [exact H|]. apply H. exact Hm. }
   assert (Hfail : forall rd', incl rd rd' ->
-            okv rd' (do! rl := reload att true m in Ret (fst rl, RLockFailure)) (Pv rd)).
+            okv rd' (do! rl := reload att hh true m in Ret (fst rl, RLockFailure)) (Pv rd)).
   { intros rd' I. eapply okv_bind; [apply reload_okv; apply I; exact Hm|]. cbn beta. intros rd2 rl [I2 H2].
     cbn [okv]. split; [|exact H2]. intros x Hx. apply I2, I. exact Hx. }
   vop. intros r. cbn [rd_step].
@@ -311,10 +314,10 @@ Proof.
     vop. intros r6. cbn [rd_step okv]. apply Hdone, I1.
 Qed.
 
-Lemma add_multi_okv : forall att tx same m rd, In (mnames m) rd ->
-  okv rd (add_multi att tx same m) (Pv rd).
+Lemma add_multi_okv : forall att hh tx same m rd, In (mnames m) rd ->
+  okv rd (add_multi att hh tx same m) (Pv rd).
 Proof.
-  intros att tx same m rd Hm. unfold add_multi.
+  intros att hh tx same m rd Hm. unfold add_multi.
   assert (Hdone : forall rd' (r : apires), incl rd rd' -> Pv rd rd' (m, r)).
   { intros rd' b H. split; [exact H|]. apply H. exact Hm. }
   vop. intros r. cbn [rd_step].
@@ -353,10 +356,10 @@ Proof.
     vop. intros r2. cbn [rd_step]. apply IH.
 Qed.
 
-Lemma clean_okv : forall att m rd, In (mnames m) rd ->
-  okv rd (clean att m) (Pv rd).
+Lemma clean_okv : forall att hh m rd, In (mnames m) rd ->
+  okv rd (clean att hh m) (Pv rd).
 Proof.
-  intros att m rd Hm. unfold clean.
+  intros att hh m rd Hm. unfold clean.
   assert (Hdone : forall rd' (r : apires), incl rd rd' -> Pv rd rd' (m, r)).
   { intros rd' b H. split; [exact H|]. apply H. exact Hm. }
   vop. intros r. cbn [rd_step].
@@ -375,6 +378,7 @@ Proof.
     + vop. intros r3. cbn [rd_step okv]. apply Hfin.
     + eapply okv_bind; [apply clean_loop_okv|]. cbn beta. intros rd3 _ ->.
       vop. intros r3. cbn [rd_step okv]. apply Hfin.
+  - vop. intros r3. cbn [rd_step okv]. apply Hfin.
   - vop. intros r3. cbn [rd_step okv]. apply Hfin.
 Qed.
 
@@ -402,9 +406,9 @@ Definition Qv (o : apiop) (m0 : option mem) (rd : list (list nat)) (res : option
                 | None => res = (None, RNoStack)
                 end).
 
-Lemma call_prog_okv : forall att o m, okv (rd_init o m) (call_prog att o m) (Qv o m).
+Lemma call_prog_okv : forall att hh o m, okv (rd_init o m) (call_prog att hh o m) (Qv o m).
 Proof.
-  intros att o m.
+  intros att hh o m.
   assert (Hnone : forall r, o <> ARead -> Qv o m (rd_init o m) (None, r)).
   { intros r H2. split; [intros; discriminate|]. intro; congruence. }
   assert (Hsame : forall mm r, o <> ARead -> o <> AOpen -> m = Some mm -> Qv o m (rd_init o m) (Some mm, r)).
@@ -648,17 +652,17 @@ Qed.
 
 (* ---------------- the end of a call ---------------- *)
 
-Lemma x_finish : forall γ s st cx hs h o m0 m r script,
+Lemma x_finish : forall γ s st cx hs h o m0 m r script hh,
   GI γ s -> XG γ s st cx ->
   (forall i hd, i <> h -> nth_error hs i = Some hd -> hx γ cx i hd) ->
   hrun γ cx h o m0 (Ret (m, r)) ->
   (forall mm, m0 = Some mm -> vbound γ cx h (mnames mm) /\ memok γ mm) ->
   exists cx',
-    XInv γ {| w_fs := s; w_handles := set_handle h {| h_mem := m; h_pc := HIdle; h_script := script |} hs |}
+    XInv γ {| w_fs := s; w_handles := set_handle h {| h_mem := m; h_pc := HIdle; h_script := script; h_hash := hh |} hs |}
          (st_ret h st) cx' /\
     forall rest, c10_loop false cx (finish_events h o m r ++ rest) = c10_loop false cx' rest.
 Proof.
-  intros γ s st cx hs h o m0 m r script HG (X1 & Xp & X2 & X4 & X5) Ho (rd & Hq & Hrd) Hm0.
+  intros γ s st cx hs h o m0 m r script hh HG (X1 & Xp & X2 & X4 & X5) Ho (rd & Hq & Hrd) Hm0.
   cbn [okv] in Hq. destruct Hq as (Q2 & Q3). cbn [fst snd] in *.
   assert (Hpend : forall c0, cx_pending c0 = cx_pending cx ->
             forall i, assoc i (cx_pending (cx_clr h c0)) = assoc i (c4_pending (st_ret h st))).
@@ -727,16 +731,16 @@ Proof.
   split; [rewrite E3; exact A|]. unfold lowb in *. rewrite E2. exact B.
 Qed.
 
-Lemma x_call : forall att γ s st cx hs h o m0,
+Lemma x_call : forall att hh γ s st cx hs h o m0,
   GI γ s -> XG γ s st cx ->
   (forall i hd, i <> h -> nth_error hs i = Some hd -> hx γ cx i hd) ->
   (forall mm, m0 = Some mm -> vbound γ cx h (mnames mm)) ->
   XG γ s (st_call h o st) (cx_call h o cx) /\
   (forall i hd, i <> h -> nth_error hs i = Some hd -> hx γ (cx_call h o cx) i hd) /\
-  hrun γ (cx_call h o cx) h o m0 (call_prog att o m0) /\
+  hrun γ (cx_call h o cx) h o m0 (call_prog att hh o m0) /\
   (forall mm, m0 = Some mm -> vbound γ (cx_call h o cx) h (mnames mm)).
 Proof.
-  intros att γ s st cx hs h o m0 HG (X1 & Xp & X2 & X4 & X5) Ho Hm.
+  intros att hh γ s st cx hs h o m0 HG (X1 & Xp & X2 & X4 & X5) Ho Hm.
   destruct (cx_call_same h o cx) as (E1 & E2 & E3).
   split; [|split; [|split]].
   - unfold XG. rewrite E1, E2, E3, st_call_commits. split; [exact X1|]. split; [|repeat split; auto; apply X4; auto].
@@ -844,7 +848,7 @@ Proof.
   { intro E. inversion E; subst. exists γ, st, cx. split; [split; [exact HG|split; assumption]|].
     split; [split; assumption|]. reflexivity. }
   destruct (nth_error (w_handles w) h) as [hd|] eqn:En; [|apply Hnop; congruence].
-  destruct (Hh h hd En) as (Hmem & Hpc).
+  destruct (Hh h hd En) as (Hmem & Hmh & Hpc).
   destruct (Hxh h hd En) as (Hxm & Hxpc).
   assert (Hothers : forall i hd', i <> h -> nth_error (w_handles w) i = Some hd' -> hinv γ (w_fs w) st i hd')
     by (intros i hd' _ E; apply Hh; exact E).
@@ -853,7 +857,7 @@ Proof.
   destruct (h_pc hd) as [|o p|] eqn:Epc; [| |apply Hnop; congruence].
   - (* a call starts *)
     destruct (h_script hd) as [|o rest] eqn:Es; [apply Hnop; congruence|].
-    pose proof (@call_prog_ok att o (h_mem hd)) as Hok.
+    pose proof (@call_prog_ok att (h_hash hd) o (h_mem hd) Hmh) as Hok.
     pose proof (@interp_init γ (w_fs w) h o (h_mem hd) HG Hmem) as HI.
     destruct Hpc as [Hp0 Hd0].
     set (st1 := st_call h o st). set (cx1 := cx_call h o cx).
@@ -868,21 +872,21 @@ Proof.
       - apply frame_refl.
       - apply keepsL_refl.
       - apply keepsT_refl. }
-    destruct (x_call att γ (w_fs w) st cx (w_handles w) h o (h_mem hd) HG HXG Hxothers Hxm)
+    destruct (x_call att (h_hash hd) γ (w_fs w) st cx (w_handles w) h o (h_mem hd) HG HXG Hxothers Hxm)
       as (XG1 & XO1 & XR1 & XM1).
     fold st1 cx1 in XG1, XO1, XR1, XM1.
-    destruct (call_prog att o (h_mem hd)) as [[m r]|q k] eqn:Ecp.
+    destruct (call_prog att (h_hash hd) o (h_mem hd)) as [[m r]|q k] eqn:Ecp.
     + inversion H; subst w' evs. clear H.
-      destruct (@finish_inv γ (w_fs w) st1 (w_handles w) h o m r _ rest HG Hc1 Ho1 HI Hok Hd1)
+      destruct (@finish_inv γ (w_fs w) st1 (w_handles w) h o m r _ rest (h_hash hd) HG Hc1 Ho1 HI Hok Hd1)
         as (W & _ & _).
-      destruct (x_finish γ (w_fs w) st1 cx1 (w_handles w) h o (h_mem hd) m r rest HG XG1 XO1 XR1) as [cx' [XI XL]].
+      destruct (x_finish γ (w_fs w) st1 cx1 (w_handles w) h o (h_mem hd) m r rest (h_hash hd) HG XG1 XO1 XR1) as [cx' [XI XL]].
       { intros mm E. split; [apply XM1; exact E|apply Hmem; exact E]. }
       exists γ, (st_ret h st1), cx'. split; [exact W|]. split; [exact XI|].
       intros rest'. cbn [app]. rewrite c10_call. apply XL.
     + inversion H; subst w' evs. clear H.
       exists γ, st1, cx1. split; [|split].
       * apply winv_set; auto.
-        split; [exact Hmem|]. cbn [h_pc].
+        split; [exact Hmem|]. split; [exact Hmh|]. cbn [h_pc h_hash].
         exists (lg_init o (h_mem hd)). auto.
       * apply xinv_set; auto. split; [exact XM1|]. cbn [h_pc h_mem]. exact XR1.
       * intros rest'. cbn [app]. apply c10_call.
@@ -891,9 +895,9 @@ Proof.
     destruct p as [[m r]|q k].
     + (* the call returns *)
       inversion H; subst w' evs. clear H.
-      destruct (@finish_inv γ (w_fs w) st (w_handles w) h o m r lg (h_script hd) HG Hc Hothers HI Hok Hd0)
+      destruct (@finish_inv γ (w_fs w) st (w_handles w) h o m r lg (h_script hd) (h_hash hd) HG Hc Hothers HI Hok Hd0)
         as (W & _ & _).
-      destruct (x_finish γ (w_fs w) st cx (w_handles w) h o (h_mem hd) m r (h_script hd) HG HXG Hxothers Hxpc)
+      destruct (x_finish γ (w_fs w) st cx (w_handles w) h o (h_mem hd) m r (h_script hd) (h_hash hd) HG HXG Hxothers Hxpc)
         as [cx' [XI XL]].
       { intros mm E. split; [apply Hxm; exact E|apply Hmem; exact E]. }
       exists γ, (st_ret h st), cx'. split; [exact W|]. split; [exact XI|exact XL].
@@ -930,9 +934,9 @@ Proof.
       set (cx1 := cx_snap (listed_fs s') (cx_req q h cx)) in *.
       destruct (k rs) as [[m r]|q' k'] eqn:Ek.
       * inversion H; subst w' evs. clear H. cbn [ok] in Hk.
-        destruct (@finish_inv γ' s' st1 (w_handles w) h o m r _ (h_script hd) (sp_GI SP) Hc1 Ho1 (sp_interp SP) Hk Hd1)
+        destruct (@finish_inv γ' s' st1 (w_handles w) h o m r _ (h_script hd) (h_hash hd) (sp_GI SP) Hc1 Ho1 (sp_interp SP) Hk Hd1)
           as (W & _ & _).
-        destruct (x_finish γ' s' st1 cx1 (w_handles w) h o (h_mem hd) m r (h_script hd) (sp_GI SP) XG1 XO1 XR1)
+        destruct (x_finish γ' s' st1 cx1 (w_handles w) h o (h_mem hd) m r (h_script hd) (h_hash hd) (sp_GI SP) XG1 XO1 XR1)
           as [cx' [XI XL]].
         { intros mm E. split; [apply XM1; exact E|].
           eapply memok_stable; [exact HG|apply (sp_frame SP)|]. apply Hmem. exact E. }
@@ -944,7 +948,7 @@ Proof.
            ++ apply (sp_GI SP).
            ++ split.
               ** cbn [h_mem]. intros mm E. eapply memok_stable; [exact HG|apply (sp_frame SP)|]. apply Hmem. exact E.
-              ** cbn [h_pc]. exists (nxt lg q rs). split; [apply (sp_interp SP)|]. auto.
+              ** split; [exact Hmh|]. cbn [h_pc h_hash]. exists (nxt lg q rs). split; [apply (sp_interp SP)|]. auto.
         -- apply xinv_set; auto. split; [exact XM1|]. cbn [h_pc h_mem]. exact XR1.
         -- intros rest. cbn [app]. apply XL1.
 Qed.
